@@ -244,6 +244,65 @@ def wrappers_use_the_instance_parameter(ctx):
         raise AnchorMissing('no datatype use found in the generated wrappers')
 
 
+@rule('C10.R9', min_instances=1)
+def every_placeholder_datatype_is_replaced(ctx):
+    """datatype properties declared with a placeholder (`Property(..., Stub('StringType'))` - StringType is defined later in
+    the file) validate NOTHING until Stub.fix_datatypes replaced the placeholder: the replacement loop has to reach the class
+    that DECLARES each such property - also a plain mix-in like HasUnit, which is no DataType and is only reached through the
+    merged propertyDict of its subclasses.  A property left with its Stub accepts any configured value (a list as unit)"""
+    m = ctx.m
+    mod = m.modules.get('frappy.datatypes')
+    if mod is None:
+        raise AnchorMissing('frappy.datatypes not found')
+    decl = {}
+    for q, ci in m.classes.items():
+        if ci.module is not mod:
+            continue
+        for a, e in ci.assigns.items():
+            if isinstance(e, ast.Call) and dotted(e.func) == 'Property' and any(isinstance(x, ast.Call) and dotted(x.func) == 'Stub' for x in ast.walk(e)):
+                decl.setdefault(q, []).append(a)
+    fx = m.classes.get('frappy.datatypes.Stub')
+    f = fx.methods.get('fix_datatypes') if fx else None
+    if f is None or not decl:
+        raise AnchorMissing('Stub.fix_datatypes / Property(..., Stub(...)) declarations not found')
+    ctx.analysed(f)
+    loops = [n for n in body_walk(f.node) if isinstance(n, ast.For)]
+    inner = [n for n in loops if any(isinstance(a, ast.For) for a in ancestors(n))]
+    merged = any('propertyDict' in src(n.iter) for n in inner or loops)
+    filt = [src(t.test) for t in body_walk(f.node) if isinstance(t, ast.If) and 'issubclass' in src(t.test)]
+    for q, attrs in sorted(decl.items()):
+        is_dt = q == 'frappy.datatypes.DataType' or 'frappy.datatypes.DataType' in m.mro(q)
+        ok = merged or is_dt or not filt
+        ctx.check(ok, f'{f.qualname}:placeholders of {q.rpartition(".")[2]} are replaced', f.node,
+                  'the loop walks the merged propertyDict of every DataType class' if merged else 'the declaring class is visited itself',
+                  f'{q.rpartition(".")[2]} declares {attrs} with a Stub datatype, but it is not a DataType subclass (filter `{filt[0] if filt else ""}`) and the inner loop '
+                  f'(`{src((inner or loops)[0].iter) if (inner or loops) else ""}`) only sees the attributes of the visited class itself: the property keeps the '
+                  'placeholder, which returns every value unchanged - a configuration may set it to a value of any type', f)
+
+
+@rule('C10.R10', min_instances=1)
+def only_import_failures_silence_later_modules(ctx):
+    """SecNode.get_module_instance returns None WITHOUT a report for a module whose python module is in failed_modules (the
+    import error was reported once).  That set is keyed by the python module, so it may only be extended where the IMPORT
+    failed - an entry made because one module's configuration was wrong silently drops every later module whose class lives
+    in the same python file (they are neither created nor reported)"""
+    m = ctx.m
+    f = m.method('frappy.secnode.SecNode', 'get_module_instance', inherited=False)
+    ctx.analysed(f)
+    adds = [c for c in calls_in(f.node) if call_attr(c) == 'add' and src(c.func.value).endswith('failed_modules')]
+    if not adds:
+        ctx.ok(f'{f.qualname}:failed_modules records import failures only', f.node, 'nothing is added to failed_modules', f)
+        return
+    for c in adds:
+        ok = any(part == 'handler' and any(call_name(x) == 'get_class' or call_attr(x) == 'import_module' for st in t.body for x in calls_in(st))
+                 and not any(isinstance(x, ast.Call) and isinstance(x.func, ast.Name) and x.func.id == 'cls' for st in t.body for x in calls_in(st))
+                 for t, part in enclosing_tries(c))
+        ctx.check(ok, f'{f.qualname}:failed_modules records import failures only', c, 'added in the handler of the import (get_class)',
+                  f'`{src(c)}` marks the whole python module as failed where no import failed (a module could not be created from its configuration): '
+                  'every later module whose class comes from the same python module is skipped by `if pymodule in self.failed_modules: return None` - '
+                  'not created and not reported, the node complains about one module only', f)
+
+
 @rule('C10.R8', min_instances=1)
 def configured_value_wins_over_the_stored_one(ctx):
     """shared with C17.R4 / C17.R4b: a value given in the configuration is the start value even when a persistent value is
